@@ -434,12 +434,22 @@ static void print_tokens(Token *tok) {
   FILE *out = open_file(opt_o ? opt_o : "-");
 
   int line = 1;
+  Token *prev = NULL;
   for (; tok->kind != TK_EOF; tok = tok->next) {
-    if (line > 1 && tok->at_bol)
+    if (line > 1 && tok->at_bol) {
       fprintf(out, "\n");
-    if (tok->has_space && !tok->at_bol)
-      fprintf(out, " ");
+    } else if (prev && !tok->at_bol) {
+      // Two tokens may be written without a space only if they were
+      // spelled that way in one place. Tokens that became neighbors
+      // by macro expansion must be separated, or the output would
+      // re-lex differently (e.g. `-N` with N defined as `-1`).
+      bool adjacent = prev->file == tok->file &&
+                      prev->loc + prev->len == tok->loc;
+      if (tok->has_space || !adjacent)
+        fprintf(out, " ");
+    }
     fprintf(out, "%.*s", tok->len, tok->loc);
+    prev = tok;
     line++;
   }
   fprintf(out, "\n");
